@@ -25,6 +25,7 @@ static int g_choices[4096], g_nchoices, g_choice_pos;
 static long g_failalloc, g_alloc_count; static int g_fault_alloc_on;
 static long g_failio, g_io_count; static char g_failio_kind[32]; static int g_fault_io_on, g_io_failed_flag, g_alloc_failed_flag;
 static FILE* g_pending_err_stream;
+static long g_interfere_at, g_interfere_pos, g_unlocked_freads; static int g_interfere_on;
 
 static void load(void) {
     if (g_loaded) return; g_loaded = 1;
@@ -37,6 +38,7 @@ static void load(void) {
         if (!strcmp(kw, "in")) { unsigned v; if (fscanf(f, "%127s %u", nm, &v) != 2) break; if (g_nin < MAXIN) { strncpy(g_in[g_nin].name, nm, 63); g_in[g_nin].val = v; g_nin++; } }
         else if (!strcmp(kw, "choice")) { int k; if (fscanf(f, "%d", &k) != 1) break; g_choices[g_nchoices++] = k; }
         else if (!strcmp(kw, "failalloc")) { if (fscanf(f, "%ld", &g_failalloc) != 1) break; }
+        else if (!strcmp(kw, "interfere")) { if (fscanf(f, "%ld %ld", &g_interfere_at, &g_interfere_pos) != 2) break; }
         else if (!strcmp(kw, "failio")) { if (fscanf(f, "%ld %31s", &g_failio, g_failio_kind) != 2) break; }
     }
     fclose(f);
@@ -61,7 +63,8 @@ int symx_io_failed(void) { return g_io_failed_flag; }
 void symx_check_leaks(void) { /* LeakSanitizer reports at exit */ }
 int symx_live_heap(void) { return 0; }
 int symx_is_symbolic(uint64_t v) { (void)v; return 0; }
-void symx_interfere(int on) { (void)on; }
+void symx_interfere(int on) { load(); g_interfere_on = on; }
+void symx_omp_permute(int on) { (void)on; }
 
 static const char* mapname(const char* name, char* buf, size_t cap) {
     const char* t = getenv("SYMX_TMP"); if (!t) t = "/tmp";
@@ -123,6 +126,18 @@ int __wrap_fclose(FILE* f) {
     int pend = g_pending_err_stream == f; if (pend) g_pending_err_stream = NULL;
     int r = __real_fclose(f);
     return (k || pend) ? EOF : r;
+}
+/* Replay of a stream-interference counterexample: the effect of ANOTHER worker's fseek on the shared FILE* between this
+ * worker's fseek and fread is reproduced deterministically by moving the stream right before the k-th fread issued on a
+ * tracked read stream while interference is enabled (run with OMP_NUM_THREADS=1). */
+size_t __real_fread(void*, size_t, size_t, FILE*);
+size_t __wrap_fread(void* p, size_t sz, size_t cnt, FILE* f) {
+    int tracked = 0; for (int i = 0; i < g_nstreams; i++) if (g_streams[i].f == f) tracked = 1;
+    if (g_interfere_on && tracked) {
+        g_unlocked_freads++;
+        if (g_interfere_at && g_unlocked_freads == g_interfere_at) fseek(f, g_interfere_pos, SEEK_SET);
+    }
+    return __real_fread(p, sz, cnt, f);
 }
 void harness(void);
 int main(void) { load(); harness(); printf("SYMX_DONE\n"); return 0; }
